@@ -20,7 +20,7 @@ EXTENDS Integers, Sequences, FiniteSets, TLC, Json
 Values == {"0", "1", "f-1", "f+1", "2^31", "2^32", "2^62", "2^63", "2^64-1", "rem-1", "rem+1", "f-4", "f+4", "256", "2^40"}
 
 \* PAR2 numeric fields
-P2Fields == {"main.slice_size", "main.nrecv", "fd.length", "ifsc.npairs", "recv.exp", "recv.datalen"}
+P2Fields == {"main.slice_size", "main.slice_size_1pair", "main.nrecv", "fd.length", "ifsc.npairs", "recv.exp", "recv.datalen"}
 \* structural mutations
 P2Struct == {"remove.creator", "remove.main", "remove.fd", "remove.ifsc", "remove.recv",
              "dup.creator", "dup.main", "dup.fd", "dup.ifsc", "dup.recv",
@@ -34,6 +34,8 @@ Where == {"index", "volume", "all"}
 \* value classes that make sense for a field (others are skipped)
 Applicable(f, v) ==
   CASE f = "main.slice_size" -> v \in {"0", "1", "f-4", "f+4", "2^31", "2^32", "2^62", "2^63", "2^64-1"}
+    \* the slice size raised above every file, with one checksum pair per file (count-consistent)
+    [] f = "main.slice_size_1pair" -> v \in {"2^31", "2^62", "2^63", "f+4"}
     [] f = "main.nrecv" -> v \in {"0", "1", "f-1", "f+1", "2^31", "2^32"}
     [] f = "fd.length" -> v \in {"0", "1", "f-1", "f+1", "rem+1", "2^31", "2^63", "2^64-1"}
     [] f = "ifsc.npairs" -> v \in {"0", "f-1", "f+1"}
